@@ -228,9 +228,15 @@ func (nf *spliceNF) String() string {
 	return fmt.Sprintf("stores[%s] bookkeeping%v guards%v%s", strings.Join(parts, " | "), nf.book, nf.guards, strings.Join(nf.undec, ""))
 }
 
+// spliceParamRename: parameter names of the analysed splice body -> the names the reference uses
+var spliceParamRename map[string]string
+
 func spliceNormalForm(body *ast.BlockStmt, facts [][2]string, helperOf ...func(*ast.CallExpr) *ast.FuncDecl) *spliceNF {
 	nf := &spliceNF{logs: map[string][][2]string{}}
 	env := map[string]string{}
+	for k, v := range spliceParamRename {
+		env[k] = v
+	}
 	distinct := func(a, b string) bool {
 		if a == "nil" || b == "nil" {
 			return a != b
@@ -362,7 +368,7 @@ func spliceNormalForm(body *ast.BlockStmt, facts [][2]string, helperOf ...func(*
 							bind := map[string]string{}
 							if hd.Recv != nil && len(hd.Recv.List) == 1 && len(hd.Recv.List[0].Names) == 1 {
 								if se, ok := ast.Unparen(c.Fun).(*ast.SelectorExpr); ok {
-									bind[hd.Recv.List[0].Names[0].Name] = term(se.X)
+									bind[recvIdentOf(hd).Name] = term(se.X)
 								}
 							}
 							i := 0
@@ -464,12 +470,13 @@ func checkSpliceShape(r *Reporter, p *Prog) {
 			refBodies[fd.Name.Name] = fd.Body
 		}
 	}
+	roles := findListRoles(p)
 	for _, name := range []string{"insert", "remove", "move"} {
 		key := "ds.list." + name
-		fd := p.FuncDecl("ds", "list", name)
+		fd := roles.byRole[name]
 		rb := refBodies[name]
 		if fd == nil || rb == nil {
-			r.Unresolved("splice/agrees-with-container-list", key, "function or reference not found")
+			r.Unresolved("splice/agrees-with-container-list", key, "function or reference not found"+roles.why[name])
 			continue
 		}
 		helperOf := func(c *ast.CallExpr) *ast.FuncDecl {
@@ -483,7 +490,38 @@ func checkSpliceShape(r *Reporter, p *Prog) {
 			}
 			return hd
 		}
-		got, want := spliceNormalForm(fd.Body, spliceFacts[name], helperOf), spliceNormalForm(rb, spliceFacts[name])
+		// the parameters are named as in the reference, by role: the list, then the elements in order
+		spliceParamRename = map[string]string{}
+		{
+			var refNames []string
+			for _, d := range ref.Decls {
+				if rfd, ok := d.(*ast.FuncDecl); ok && rfd.Recv != nil && rfd.Name.Name == name {
+					for _, fl := range rfd.Type.Params.List {
+						for _, nm := range fl.Names {
+							refNames = append(refNames, nm.Name)
+						}
+					}
+				}
+			}
+			if id := recvIdentOf(fd); id.Name != "_" {
+				spliceParamRename[id.Name] = "l"
+			}
+			i := 0
+			for _, fl := range fd.Type.Params.List {
+				for _, nm := range fl.Names {
+					if nm == recvIdentOf(fd) {
+						continue
+					}
+					if i < len(refNames) {
+						spliceParamRename[nm.Name] = refNames[i]
+					}
+					i++
+				}
+			}
+		}
+		got := spliceNormalForm(fd.Body, spliceFacts[name], helperOf)
+		spliceParamRename = nil
+		want := spliceNormalForm(rb, spliceFacts[name])
 		switch {
 		case len(got.undec) > 0:
 			r.Fail("splice/agrees-with-container-list", key, p.posStr(fd.Pos()), "the splice body contains a construct the normal form does not cover (undecided counts as failed): "+got.String())
@@ -508,8 +546,15 @@ func checkListCore(r *Reporter, p *Prog) {
 	info := pk.TypesInfo
 
 	// ---- (1) handle validation
-	isSplice := func(name string) bool {
-		return name == "insert" || name == "insertValue" || name == "move" || name == "remove"
+	roles := findListRoles(p)
+	// a call of a splice primitive (by role, not by name: any unexported function of the package that
+	// rewires the ring, directly or through further helpers), method or package-level function
+	spliceCall := func(c *ast.CallExpr) (string, bool) {
+		fn := staticCallee(info, c)
+		if fn == nil || !roles.splice[fn] {
+			return "", false
+		}
+		return fn.Name(), true
 	}
 	nHandleMethods := 0
 	for _, fd := range p.Methods(pkg, "list") {
@@ -528,7 +573,7 @@ func checkListCore(r *Reporter, p *Prog) {
 		nHandleMethods++
 		fkey := funcKey(pkg, fd)
 		f := newFuncCFG(p, info, fd.Body, fkey)
-		recvName := fd.Recv.List[0].Names[0].Name
+		recvName := recvIdentOf(fd).Name
 		typedOf := map[types.Object]types.Object{} // param -> typed variable
 		paramOfTyped := map[types.Object]types.Object{}
 		ast.Inspect(fd.Body, func(n ast.Node) bool {
@@ -611,8 +656,7 @@ func checkListCore(r *Reporter, p *Prog) {
 				if !isCall {
 					return false
 				}
-				se, isSel := ast.Unparen(c.Fun).(*ast.SelectorExpr)
-				if !isSel || !isSplice(se.Sel.Name) {
+				if _, isSp := spliceCall(c); !isSp {
 					return false
 				}
 				for _, a := range c.Args {
@@ -630,7 +674,7 @@ func checkListCore(r *Reporter, p *Prog) {
 					var call *ast.CallExpr
 					inspectNoLit(f.nodeAt(pt), func(m ast.Node) bool {
 						if c, isCall := m.(*ast.CallExpr); isCall && call == nil {
-							if se, isSel := ast.Unparen(c.Fun).(*ast.SelectorExpr); isSel && isSplice(se.Sel.Name) {
+							if _, isSp := spliceCall(c); isSp {
 								call = c
 							}
 						}
@@ -696,8 +740,8 @@ func checkListCore(r *Reporter, p *Prog) {
 			if !isCall {
 				return true
 			}
-			se, isSel := ast.Unparen(c.Fun).(*ast.SelectorExpr)
-			if !isSel || !isSplice(se.Sel.Name) {
+			spName, isSp := spliceCall(c)
+			if !isSp {
 				return true
 			}
 			for i, a := range c.Args {
@@ -712,7 +756,7 @@ func checkListCore(r *Reporter, p *Prog) {
 				if ro != nil && ro.Name() == recvName && strings.Contains(exprKey(a), ".root") {
 					okSrc = true
 				}
-				key := fmt.Sprintf("%s %s arg %d", fkey, se.Sel.Name, i)
+				key := fmt.Sprintf("%s %s arg %d", fkey, spName, i)
 				if okSrc {
 					r.Pass("handle/splice-args", key, p.posStr(a.Pos()), exprKey(a)+" derives from a validated handle or the sentinel")
 				} else {
@@ -729,24 +773,32 @@ func checkListCore(r *Reporter, p *Prog) {
 	// ---- (2) bookkeeping
 	type site struct{ fn, what string }
 	var sites []site
-	for _, fd := range p.Methods(pkg, "list") {
-		if fd.Body == nil {
+	ofType := func(e ast.Expr, field, typ string) bool {
+		se, ok := ast.Unparen(e).(*ast.SelectorExpr)
+		if !ok || se.Sel.Name != field {
+			return false
+		}
+		sel := info.Selections[se]
+		return sel != nil && sel.Kind() == types.FieldVal && shortTypeName(typeName(sel.Recv())) == typ
+	}
+	for _, fd := range p.AllFuncDecls(pkg) {
+		if fd.Body == nil || strings.HasSuffix(p.Fset.Position(fd.Pos()).Filename, "_test.go") {
 			continue
 		}
 		ast.Inspect(fd.Body, func(n ast.Node) bool {
 			switch x := n.(type) {
 			case *ast.IncDecStmt:
-				if fieldSel(info, x.X, "len") {
+				if ofType(x.X, "len", "list") {
 					sites = append(sites, site{fd.Name.Name, "len" + x.Tok.String()})
 				}
 			case *ast.AssignStmt:
 				for _, l := range x.Lhs {
-					if fieldSel(info, l, "len") {
+					if ofType(l, "len", "list") {
 						sites = append(sites, site{fd.Name.Name, "len=" + exprKey(x.Rhs[0])})
 					}
 				}
 			case *ast.CallExpr:
-				if se, ok := ast.Unparen(x.Fun).(*ast.SelectorExpr); ok && se.Sel.Name == "Store" && fieldSel(info, se.X, "list") && len(x.Args) == 1 {
+				if se, ok := ast.Unparen(x.Fun).(*ast.SelectorExpr); ok && se.Sel.Name == "Store" && ofType(se.X, "list", "listElement") && len(x.Args) == 1 {
 					v := "recv"
 					if isNil(info, x.Args[0]) {
 						v = "nil"
@@ -754,7 +806,7 @@ func checkListCore(r *Reporter, p *Prog) {
 					sites = append(sites, site{fd.Name.Name, "list.Store(" + v + ")"})
 				}
 				// CompareAndSwap(old, new) on the list pointer stores new (when it succeeds)
-				if se, ok := ast.Unparen(x.Fun).(*ast.SelectorExpr); ok && se.Sel.Name == "CompareAndSwap" && fieldSel(info, se.X, "list") && len(x.Args) == 2 {
+				if se, ok := ast.Unparen(x.Fun).(*ast.SelectorExpr); ok && se.Sel.Name == "CompareAndSwap" && ofType(se.X, "list", "listElement") && len(x.Args) == 2 {
 					v := "recv"
 					if isNil(info, x.Args[1]) {
 						v = "nil"
@@ -765,7 +817,9 @@ func checkListCore(r *Reporter, p *Prog) {
 			return true
 		})
 	}
-	want := map[string]string{"len++": "insert", "len--": "remove", "len=0": "Init", "list.Store(recv)": "insert", "list.Store(nil)": "remove"}
+	// by role, not by name: the one unexported function that counts an element in is the one that marks
+	// it as a member, the one that counts it out is the one that clears the mark; len is reset by Init only
+	want := map[string]string{"len++": "the insert primitive", "len--": "the remove primitive", "len=0": "Init", "list.Store(recv)": "the insert primitive", "list.Store(nil)": "the remove primitive"}
 	got := map[string][]string{}
 	for _, s := range sites {
 		got[s.what] = append(got[s.what], s.fn)
@@ -780,13 +834,32 @@ func checkListCore(r *Reporter, p *Prog) {
 		}
 	}
 	sort.Strings(whats)
+	one := func(w string) string {
+		if len(got[w]) == 1 {
+			return got[w][0]
+		}
+		return ""
+	}
+	unexported := func(n string) bool { return n != "" && !ast.IsExported(n) }
 	for _, w := range whats {
 		key := "ds.list " + w
 		fns := got[w]
-		if wf, ok := want[w]; ok && len(fns) == 1 && fns[0] == wf {
-			r.Pass("bookkeeping/sites", key, "-", "only in "+wf)
+		wf, ok := want[w]
+		good := false
+		switch w {
+		case "len++", "len--":
+			good = unexported(one(w))
+		case "list.Store(recv)":
+			good = unexported(one(w)) && one(w) == one("len++")
+		case "list.Store(nil)":
+			good = unexported(one(w)) && one(w) == one("len--")
+		case "len=0":
+			good = one(w) == "Init"
+		}
+		if ok && good {
+			r.Pass("bookkeeping/sites", key, "-", "only in "+fns[0])
 		} else if ok {
-			r.Fail("bookkeeping/sites", key, "-", fmt.Sprintf("must occur exactly once, in %s; found in %v", wf, fns))
+			r.Fail("bookkeeping/sites", key, "-", fmt.Sprintf("must occur exactly once, in %s (counting and membership mark together); found in %v", wf, fns))
 		} else {
 			r.Fail("bookkeeping/sites", key, "-", fmt.Sprintf("unexpected modification of len / element.list in %v", fns))
 		}
@@ -795,4 +868,137 @@ func checkListCore(r *Reporter, p *Prog) {
 	// ---- (3) splice shape vs container/list
 	checkSpliceShape(r, p)
 
+}
+
+// listRoles: the splice primitives of ds.list found by what they do, so that renaming them or turning
+// them into package-level functions does not matter. A primitive is an unexported function of the
+// package that (directly or through further unexported helpers) stores into the next/prev pointers of a
+// listElement. insert is the one that contains len++, remove the one that contains len--, move the
+// top-most one (not called by another primitive) that reaches neither.
+type listRoles struct {
+	byRole map[string]*ast.FuncDecl
+	why    map[string]string
+	splice map[*types.Func]bool
+}
+
+func findListRoles(p *Prog) *listRoles {
+	const pkg = "ds"
+	out := &listRoles{byRole: map[string]*ast.FuncDecl{}, why: map[string]string{}, splice: map[*types.Func]bool{}}
+	pk := p.Pkg(pkg)
+	if pk == nil {
+		return out
+	}
+	info := pk.TypesInfo
+	isElemLink := func(e ast.Expr) bool {
+		se, ok := ast.Unparen(e).(*ast.SelectorExpr)
+		if !ok || (se.Sel.Name != "next" && se.Sel.Name != "prev") {
+			return false
+		}
+		sel := info.Selections[se]
+		return sel != nil && sel.Kind() == types.FieldVal && shortTypeName(typeName(sel.Recv())) == "listElement"
+	}
+	type facts struct {
+		fd              *ast.FuncDecl
+		links, inc, dec bool
+		calls           []*types.Func
+	}
+	fs := map[*types.Func]*facts{}
+	for _, fd := range p.AllFuncDecls(pkg) {
+		if fd.Body == nil || fd.Name.IsExported() || strings.HasSuffix(p.Fset.Position(fd.Pos()).Filename, "_test.go") {
+			continue
+		}
+		fn, _ := info.Defs[fd.Name].(*types.Func)
+		if fn == nil {
+			continue
+		}
+		ft := &facts{fd: fd}
+		ast.Inspect(fd.Body, func(n ast.Node) bool {
+			switch x := n.(type) {
+			case *ast.AssignStmt:
+				for _, l := range x.Lhs {
+					if isElemLink(l) {
+						ft.links = true
+					}
+				}
+			case *ast.IncDecStmt:
+				if se, ok := ast.Unparen(x.X).(*ast.SelectorExpr); ok && se.Sel.Name == "len" && fieldSel(info, x.X, "len") {
+					if sel := info.Selections[se]; sel != nil && shortTypeName(typeName(sel.Recv())) == "list" {
+						if x.Tok == token.INC {
+							ft.inc = true
+						} else {
+							ft.dec = true
+						}
+					}
+				}
+			case *ast.CallExpr:
+				if se, ok := ast.Unparen(x.Fun).(*ast.SelectorExpr); ok && (se.Sel.Name == "Store" || se.Sel.Name == "Swap" || se.Sel.Name == "CompareAndSwap") && isElemLink(se.X) {
+					ft.links = true
+				}
+				if c := staticCallee(info, x); c != nil {
+					ft.calls = append(ft.calls, c)
+				}
+			}
+			return true
+		})
+		fs[fn] = ft
+	}
+	// transitive closure over unexported helpers
+	type eff struct{ links, inc, dec bool }
+	memo := map[*types.Func]*eff{}
+	var effOf func(fn *types.Func, depth int) eff
+	effOf = func(fn *types.Func, depth int) eff {
+		if e, ok := memo[fn]; ok {
+			return *e
+		}
+		ft := fs[fn]
+		if ft == nil || depth > 6 {
+			return eff{}
+		}
+		e := &eff{ft.links, ft.inc, ft.dec}
+		memo[fn] = e
+		for _, c := range ft.calls {
+			ce := effOf(c, depth+1)
+			e.links = e.links || ce.links
+			e.inc = e.inc || ce.inc
+			e.dec = e.dec || ce.dec
+		}
+		return *e
+	}
+	calledByPrim := map[*types.Func]bool{}
+	for fn, ft := range fs {
+		if !effOf(fn, 0).links {
+			continue
+		}
+		out.splice[fn] = true
+		for _, c := range ft.calls {
+			if c != fn && fs[c] != nil {
+				calledByPrim[c] = true
+			}
+		}
+	}
+	pick := func(role string, pred func(fn *types.Func, ft *facts) bool) {
+		var cands []*ast.FuncDecl
+		for fn, ft := range fs {
+			if out.splice[fn] && pred(fn, ft) {
+				cands = append(cands, ft.fd)
+			}
+		}
+		if len(cands) == 1 {
+			out.byRole[role] = cands[0]
+			return
+		}
+		var names []string
+		for _, c := range cands {
+			names = append(names, c.Name.Name)
+		}
+		sort.Strings(names)
+		out.why[role] = fmt.Sprintf(" (candidates for the %s role: %v)", role, names)
+	}
+	pick("insert", func(fn *types.Func, ft *facts) bool { return ft.inc })
+	pick("remove", func(fn *types.Func, ft *facts) bool { return ft.dec })
+	pick("move", func(fn *types.Func, ft *facts) bool {
+		e := effOf(fn, 0)
+		return !e.inc && !e.dec && !calledByPrim[fn]
+	})
+	return out
 }
